@@ -94,8 +94,19 @@ let dispatch_line mode line =
     Printf.sprintf "%s = %s" p r
   | _ -> "bad-line"
 
+(* ---- `pow a e p`: value and number of modular multiplications of the windowed exponentiation ---- *)
+let pow_steps_line line =
+  match Stdlib.String.split_on_char ' ' (Stdlib.String.trim line) with
+  | [op; a; b; p] ->
+    let r = match FieldPow.modpow_steps (z_of_hex a) (z_of_hex b) (z_of_hex p) with
+      | Ok (v, c) -> Printf.sprintf "ok %s steps %d" (hex_of_z v) (int_of_z c)
+      | o -> fault o in
+    Printf.sprintf "%s %s %s %s = %s" op a b p r
+  | _ -> "bad-line"
+
 let () =
   match Array.to_list Sys.argv with
+  | _ :: "pow-steps" :: _ -> each_line pow_steps_line
   | _ :: "dispatch-loop" :: _ -> each_line (dispatch_line 0)
   | _ :: "dispatch" :: _ -> each_line (dispatch_line 1)
   | _ :: "dispatch-doc" :: _ -> each_line (dispatch_line 2)
